@@ -23,6 +23,11 @@ import VsgProofs.Lemmas.ClassifyPta
 import VsgProofs.Lemmas.LexRelayout
 import VsgModel.Indent.SetIndent
 import VsgProofs.Lemmas.SetIndent
+-- >>> WP1b layer P
+import VsgModel.Prog.Check
+import VsgModel.Generated.ClassifyProg
+import VsgProofs.Lemmas.ProgLayout
+-- <<< WP1b layer P
 namespace Vsgm.C05
 open Vsgm Vsgm.Classify Vsgm.Lex
 
@@ -502,3 +507,59 @@ end SetIndent
 /-! ### END ag_setindent -/
 
 end Vsgm.C05
+
+-- >>> WP1b layer P: layout blindness of the interpreter's indexed leaf operations (partial)
+namespace Vsgm.C05
+open Vsgm Vsgm.Classify Vsgm.Prog
+
+/-- **the full property (STATED, not proved)**: calls of function `f` on two states whose token lists have the same
+    view, with integer arguments that correspond position-wise (`rank`), end in states with the same view and return
+    corresponding positions.  What is proved below are the two indexed leaf operations; the lift through the
+    interpreter needs a BINARY relation on values (ints related by `rank`, not by equality), i.e. a fourth induction of
+    the size of `inv_run` with related frames — not done.  The hand models of the navigation primitives
+    (`prims_forwardSearch`, `prims_areNextTypesIgnWs`, …) are the base cases such a lift would use. -/
+def LayoutBlindCall (S : Sys) (p : Classify.CTok → Bool) (f : Nat) : Prop :=
+  ∀ (n : Nat) (st st' : State) (i i' : Nat),
+    view p st.toks.toList = view p st'.toks.toList →
+    rank p st.toks.toList i = rank p st'.toks.toList i' →
+    st.frame = st'.frame → st.heap = st'.heap → st.globals = st'.globals →
+    let r := (run S n).call f [.int i, .toks] st
+    let r' := (run S n).call f [.int i', .toks] st'
+    view p r.2.toks.toList = view p r'.2.toks.toList ∧
+    (∀ j j', r.1 = .ok (.int j) → r'.1 = .ok (.int j') → rank p r.2.toks.toList j.toNat = rank p r'.2.toks.toList j'.toNat)
+
+/-- **read, partial**: at corresponding positions that both point at a kept token, `lObjects[k]` and `lObjects[k']`
+    are the same token -/
+theorem prog_read_layout_partial (p : Classify.CTok → Bool) (st st' : State) (k k' : Nat) (h : Corr p st st' k k') :
+    st.toks[k]? = st'.toks[k']? := read_layout p st st' k k' h
+
+/-- **store, partial**: the only store the value fragment admits (`toksSet`, reached through the fused `retag`), applied
+    at corresponding positions with the same kept token, keeps the views equal and every rank unchanged — so all
+    positions that corresponded before the store correspond after it -/
+theorem prog_store_layout_partial (p : Classify.CTok → Bool) (st st' : State) (k k' : Nat) (t : Classify.CTok)
+    (h : Corr p st st' k k') (hpt : p t = true) :
+    view p (toksSet k t st).2.toks.toList = view p (toksSet k' t st').2.toks.toList
+    ∧ (∀ j, rank p (toksSet k t st).2.toks.toList j = rank p st.toks.toList j)
+    ∧ (∀ j, rank p (toksSet k' t st').2.toks.toList j = rank p st'.toks.toList j) :=
+  store_layout p st st' k k' t h hpt
+
+/-- candidates for the fragment "touches the token list only through calls of the navigation / assignment helpers":
+    the functions of the generated table without any subscript, fused store or `pop` of their own — 467 of 549 (the 82
+    others are listed by name in `C19.progIndexSites`) -/
+theorem progTable_nav_candidates :
+    (failingNames Chk.noIndex Gen.Prog.progTable).length = 82 ∧ Gen.Prog.progTable.length = 549 := by decide +kernel
+
+/-- non-vacuity: `a ; b` and `a <ws> ; b` (class 51 = white space is not kept): position 1 of the first and position 2
+    of the second correspond -/
+example :
+    let keep : Classify.CTok → Bool := fun t => t.cls != 51
+    let a : Classify.CTok := { cls := 24, val := ['a'], lower := ['a'] }
+    let s : Classify.CTok := { cls := 24, val := [';'], lower := [';'] }
+    let w : Classify.CTok := { cls := 51, val := [' '], lower := [' '] }
+    let st : State := { toks := #[a, s, a] }
+    let st' : State := { toks := #[a, w, s, a] }
+    view keep st.toks.toList = view keep st'.toks.toList ∧ rank keep st.toks.toList 1 = rank keep st'.toks.toList 2
+      ∧ st.toks[1]? = st'.toks[2]? := by decide +kernel
+
+end Vsgm.C05
+-- <<< WP1b layer P
